@@ -266,6 +266,20 @@ PROPS = {
                    "Tie: skeleton theorem C09_skeleton; validation and search: real goroutines under steered and random schedules, files read by the independent scanner: exactly once, at the reported file and offset, batches adjacent and in order, whole files, nothing on disk without a response",
         level_note="Trusted: Lean kernel, the go/ast skeleton extractor, Go's channel/mutex semantics, the harness' scanner. Modelled by hand: Proto.",
     ),
+    "C11": dict(
+        title="Supported concurrent use is free of data races",
+        lean_modules=["Gowarc.Props.C11"],
+        race_binary=True,
+        n_quick=24, n_thorough=300,
+        required_theorems=["C11_table", "C11_closed", "C11_fields_locked"],
+        model_assumptions=["the Go memory model: accesses ordered by a mutex, by channel operations of the protocol (C10) or by package initialisation do not race",
+                           "the table is extracted syntactically (go/ast): assignments through the receiver, calls by method name, package variables by name; accesses reached only through interfaces, closures or third-party code are not in the table and are covered by the race-detector workloads only",
+                           "the detector only reports races on the schedules that actually ran: the workloads repeat each supported shape with 2-8 goroutines"],
+        design_ref="DESIGN.md section 5, C11",
+        level_text="Lock-discipline check over the shared-access table regenerated from /repo on every run (package-variable writes, field writes of the per-file writer with lock holders and call graph, unsafe external calls, generator and writer-struct writes, pool puts): theorem that the table satisfies the discipline, "
+                   "a generic soundness theorem for the lock closure, and its corollary that every field write is reached only through a method that takes writeLock. Validation and search: workloads of exactly the supported shape under the Go race detector; any report is a violation",
+        level_note="Partial by nature: this is the property where the proof carries least. Trusted: Lean kernel, the go/ast extractor, the Go race detector and memory model.",
+    ),
 }
 
 
